@@ -1,3 +1,1755 @@
-//! C14 harnesses (see /verif/DESIGN.md section 5).
+//! C14 - out-of-range lengths and values are rejected, never truncated.
+//!
+//! Every harness drives ONE symbolic length over its whole range (not sampled around the
+//! limits) through the real constructor / setter and compares with a limit computed here from
+//! the width of the wire field and the header sizes of the RFCs (no constant of etherparse is
+//! used): accepted <=> representable, accepted value read back from the encoded bytes, rejected
+//! => error carries (offending value, true maximum, value type) and the header is unchanged.
+//!
+//! Slice taking APIs get a slice over a real, zero filled heap object of SYMBOLIC size
+//! (`Zeros`, size <= 2^33 > u32::MAX + 2^16, so both sides of every 8, 16 and 32 bit limit
+//! are inside the bound; natively a lazily mapped calloc, so tapes replay). Where the API would
+//! sum the slice (`checksum::u64_16bit_word::add_slice`) that function is replaced by a havoc
+//! stub (content irrelevant to the verdict, checksum values are not asserted here - C09 decides
+//! them) and the 2/4/8 byte kernels by logging havoc stubs, so that the length word fed into
+//! the pseudo header is observable (`#[cfg(kani)]` assertions: natively there is no stub).
+//! In the stubbed harnesses all symbolic inputs are drawn BEFORE the first call that reaches a
+//! stub, so the values the stubs draw come last on a counterexample tape and the native replay
+//! (no stubs) reads the same inputs.
+//!
+//! Not built (measured): PacketBuilder over IPv6 - `Ipv6Extensions::write_internal` exhausts the
+//! 20 GB cap even with empty extensions and `to_bytes` of AH / raw headers stubbed; `ArpPacket::
+//! to_bytes` with symbolic address lengths (same); see reg/c14.py "outside".
+//!
+//! Known finding: `IpHeaders::set_payload_len` (IPv6 arm, `len + extensions` overflows usize)
+//! reports `ValueType::Ipv4PayloadLength` - routed to `KF:c14-ip-headers-v6-overflow-value-type`
+//! in the lean harness `ip_headers_v6_overflow_value_type`.
 
-crate::harnesses! {}
+use crate::sym::{any, any_le, assume};
+use crate::witness;
+use etherparse::err::{ValueTooBigError, ValueType};
+use etherparse::*;
+use std::alloc::{alloc_zeroed, dealloc, Layout};
+
+// ================================================================= infrastructure
+
+/// bound on the size of a symbolic-size object: 8 GiB (natively a lazily mapped calloc)
+pub const MAX_OBJ: usize = 1 << 33;
+
+/// a zero filled heap object of exactly `len` bytes, `len` symbolic
+pub struct Zeros {
+    ptr: *mut u8,
+    len: usize,
+}
+
+impl Zeros {
+    pub fn new(len: usize) -> Zeros {
+        assume(len <= MAX_OBJ);
+        if len == 0 {
+            return Zeros { ptr: core::ptr::NonNull::<u8>::dangling().as_ptr(), len: 0 };
+        }
+        let ptr = unsafe { alloc_zeroed(Layout::from_size_align(len, 1).unwrap()) };
+        assume(!ptr.is_null());
+        Zeros { ptr, len }
+    }
+    pub fn slice(&self) -> &[u8] {
+        unsafe { core::slice::from_raw_parts(self.ptr, self.len) }
+    }
+    pub fn slice_mut(&mut self) -> &mut [u8] {
+        unsafe { core::slice::from_raw_parts_mut(self.ptr, self.len) }
+    }
+}
+
+impl Drop for Zeros {
+    fn drop(&mut self) {
+        if self.len != 0 {
+            unsafe { dealloc(self.ptr, Layout::from_size_align(self.len, 1).unwrap()) }
+        }
+    }
+}
+
+fn any_bool() -> bool {
+    any()
+}
+
+/// limits written from the field widths
+const U16_FIELD_MAX: usize = (1 << 16) - 1;
+const U32_FIELD_MAX: usize = (1 << 32) - 1;
+/// RFC 791: header without options; RFC 768; RFC 9293 (without options); RFC 8200; RFC 4443
+const IPV4_BASE: usize = 20;
+const UDP_HDR: usize = 8;
+const TCP_BASE: usize = 20;
+const ICMPV6_HDR: usize = 8;
+
+/// ghost log of the checksum kernels (only in force under `#[kani::stub]`)
+pub mod ghost {
+    pub const CAP: usize = 40;
+    pub static mut CALLS: usize = 0;
+    /// 2 / 4 / 8 = kernel of that many bytes, 0 = add_slice
+    pub static mut SIZE: [u8; CAP] = [0; CAP];
+    pub static mut BYTES: [[u8; 8]; CAP] = [[0; 8]; CAP];
+    pub static mut SLEN: [usize; CAP] = [0; CAP];
+
+    pub fn reset() {
+        unsafe { CALLS = 0 }
+    }
+    pub fn record(size: u8, bytes: [u8; 8], slen: usize) -> u64 {
+        let out: u64 = crate::sym::any();
+        unsafe {
+            let k = CALLS;
+            assert!(k < CAP, "C14 ghost log overflow");
+            SIZE[k] = size;
+            BYTES[k] = bytes;
+            SLEN[k] = slen;
+            CALLS = k + 1;
+        }
+        out
+    }
+    /// number of logged kernel calls of `size` bytes whose data is `bytes`
+    pub fn count_word(size: u8, bytes: [u8; 8]) -> usize {
+        let mut n = 0;
+        let mut k = 0;
+        let calls = unsafe { CALLS };
+        while k < calls {
+            let (s, b) = unsafe { (SIZE[k], BYTES[k]) };
+            if s == size && b == bytes {
+                n += 1;
+            }
+            k += 1;
+        }
+        n
+    }
+    /// number of logged add_slice calls over a slice of `len` bytes
+    pub fn count_slice(len: usize) -> usize {
+        let mut n = 0;
+        let mut k = 0;
+        let calls = unsafe { CALLS };
+        while k < calls {
+            let (s, l) = unsafe { (SIZE[k], SLEN[k]) };
+            if s == 0 && l == len {
+                n += 1;
+            }
+            k += 1;
+        }
+        n
+    }
+    pub fn w16(v: u16) -> [u8; 8] {
+        let b = v.to_be_bytes();
+        [b[0], b[1], 0, 0, 0, 0, 0, 0]
+    }
+    pub fn w32(v: u32) -> [u8; 8] {
+        let b = v.to_be_bytes();
+        [b[0], b[1], b[2], b[3], 0, 0, 0, 0]
+    }
+}
+pub fn g_add8(_start: u64, v: [u8; 8]) -> u64 {
+    ghost::record(8, v, 0)
+}
+pub fn g_add4(_start: u64, v: [u8; 4]) -> u64 {
+    ghost::record(4, [v[0], v[1], v[2], v[3], 0, 0, 0, 0], 0)
+}
+pub fn g_add2(_start: u64, v: [u8; 2]) -> u64 {
+    ghost::record(2, [v[0], v[1], 0, 0, 0, 0, 0, 0], 0)
+}
+pub fn g_add_slice(_start: u64, s: &[u8]) -> u64 {
+    ghost::record(0, [0; 8], s.len())
+}
+
+// ================================================================= IPv4 / IPv6 length setters
+
+fn dscp() -> IpDscp {
+    let v: u8 = any();
+    assume(v < 64);
+    IpDscp::try_new(v).unwrap()
+}
+fn ecn() -> IpEcn {
+    let v: u8 = any();
+    assume(v < 4);
+    IpEcn::try_new(v).unwrap()
+}
+fn frag_offset() -> IpFragOffset {
+    let v: u16 = any();
+    assume(v < (1 << 13));
+    IpFragOffset::try_new(v).unwrap()
+}
+fn flow_label() -> Ipv6FlowLabel {
+    let v: u32 = any();
+    assume(v < (1 << 20));
+    Ipv6FlowLabel::try_new(v).unwrap()
+}
+
+/// all field values, options of every accepted length 0,4,..,40
+fn ipv4_header() -> Ipv4Header {
+    let words = any_le(10);
+    let data: [u8; 40] = any();
+    let options = match Ipv4Options::try_from(&data[..words * 4]) {
+        Ok(o) => o,
+        Err(_) => panic!("documented acceptance set of Ipv4Options"),
+    };
+    Ipv4Header {
+        dscp: dscp(),
+        ecn: ecn(),
+        total_len: any(),
+        identification: any(),
+        dont_fragment: any_bool(),
+        more_fragments: any_bool(),
+        fragment_offset: frag_offset(),
+        time_to_live: any(),
+        protocol: IpNumber(any()),
+        header_checksum: any(),
+        source: any(),
+        destination: any(),
+        options,
+    }
+}
+
+/// field-wise equality (the options are compared at one symbolic position: no memcmp loop)
+fn ipv4_same(a: &Ipv4Header, b: &Ipv4Header, j: usize) -> bool {
+    a.dscp == b.dscp
+        && a.ecn == b.ecn
+        && a.total_len == b.total_len
+        && a.identification == b.identification
+        && a.dont_fragment == b.dont_fragment
+        && a.more_fragments == b.more_fragments
+        && a.fragment_offset == b.fragment_offset
+        && a.time_to_live == b.time_to_live
+        && a.protocol == b.protocol
+        && a.header_checksum == b.header_checksum
+        && a.source == b.source
+        && a.destination == b.destination
+        && a.options.len() == b.options.len()
+        && (j >= a.options.len() || a.options.as_slice()[j] == b.options.as_slice()[j])
+}
+
+fn ipv6_header() -> Ipv6Header {
+    Ipv6Header {
+        traffic_class: any(),
+        flow_label: flow_label(),
+        payload_length: any(),
+        next_header: IpNumber(any()),
+        hop_limit: any(),
+        source: any(),
+        destination: any(),
+    }
+}
+
+/// `Ipv4Header::new`: the u16 payload length plus 20 must fit the 16 bit total length
+pub fn ipv4_new() {
+    let payload_len: u16 = any();
+    let ttl: u8 = any();
+    let proto: u8 = any();
+    let src: [u8; 4] = any();
+    let dst: [u8; 4] = any();
+    let max = (U16_FIELD_MAX - IPV4_BASE) as u16;
+    let r = Ipv4Header::new(payload_len, ttl, IpNumber(proto), src, dst);
+    witness!(r.is_ok() && payload_len == max, "accepted at the limit");
+    witness!(r.is_err() && payload_len == max + 1, "rejected just above the limit");
+    match r {
+        Ok(h) => {
+            assert!(payload_len <= max, "C14: value above the field maximum accepted");
+            assert!(usize::from(h.total_len) == IPV4_BASE + usize::from(payload_len));
+            let b = h.to_bytes();
+            assert!(b.len() == IPV4_BASE);
+            assert!(usize::from(u16::from_be_bytes([b[2], b[3]])) == IPV4_BASE + usize::from(payload_len));
+            assert!(h.payload_len() == Ok(payload_len));
+            assert!(h.time_to_live == ttl && h.protocol.0 == proto && h.source == src && h.destination == dst);
+        }
+        Err(e) => {
+            assert!(payload_len > max, "C14: representable value rejected");
+            assert!(e.actual == payload_len);
+            assert!(e.max_allowed == max);
+            assert!(e.value_type == ValueType::Ipv4PayloadLength);
+        }
+    }
+}
+
+/// `Ipv4Header::set_payload_len` / `max_payload_len`, every options length, every usize
+pub fn ipv4_set_payload_len() {
+    let mut h = ipv4_header();
+    let value: usize = any();
+    let j: usize = any();
+    let before = h.clone();
+    let hdr = IPV4_BASE + h.options.len();
+    let max = U16_FIELD_MAX - hdr;
+    assert!(usize::from(h.max_payload_len()) == max);
+    let r = h.set_payload_len(value);
+    witness!(r.is_ok() && value == max && hdr == 60, "accepted at the limit, full options");
+    witness!(r.is_err() && value == max + 1 && hdr == 24, "rejected just above the limit");
+    witness!(r.is_err() && value == 65536, "rejected 2^16");
+    witness!(r.is_err() && value == usize::MAX, "rejected usize::MAX");
+    match r {
+        Ok(()) => {
+            assert!(value <= max, "C14: value above the field maximum accepted");
+            assert!(usize::from(h.total_len) == hdr + value);
+            let b = h.to_bytes();
+            assert!(b.len() == hdr);
+            assert!(usize::from(u16::from_be_bytes([b[2], b[3]])) == hdr + value, "C14: encoded total length");
+            assert!(h.payload_len().ok().map(usize::from) == Some(value), "C14: decodes to the value given");
+            // nothing but the length changed
+            let mut back = h.clone();
+            back.total_len = before.total_len;
+            assert!(ipv4_same(&back, &before, j));
+        }
+        Err(e) => {
+            assert!(value > max, "C14: representable value rejected");
+            assert!(e.actual == value);
+            assert!(e.max_allowed == max);
+            assert!(e.value_type == ValueType::Ipv4PayloadLength);
+            assert!(ipv4_same(&h, &before, j), "C14: header changed by a rejected call");
+        }
+    }
+}
+
+/// `Ipv6Header::set_payload_length`, every usize
+pub fn ipv6_set_payload_length() {
+    let mut h = ipv6_header();
+    let value: usize = any();
+    let before = h.clone();
+    let max = U16_FIELD_MAX;
+    let r = h.set_payload_length(value);
+    witness!(r.is_ok() && value == max, "accepted at the limit");
+    witness!(r.is_err() && value == max + 1, "rejected just above the limit");
+    witness!(r.is_err() && value == usize::MAX, "rejected usize::MAX");
+    match r {
+        Ok(()) => {
+            assert!(value <= max, "C14: value above the field maximum accepted");
+            assert!(usize::from(h.payload_length) == value);
+            let b = h.to_bytes();
+            assert!(usize::from(u16::from_be_bytes([b[4], b[5]])) == value, "C14: encoded payload length");
+            let mut back = h.clone();
+            back.payload_length = before.payload_length;
+            assert!(back == before);
+        }
+        Err(e) => {
+            assert!(value > max, "C14: representable value rejected");
+            assert!(e.actual == value);
+            assert!(e.max_allowed == max);
+            assert!(e.value_type == ValueType::Ipv6PayloadLength);
+            assert!(h == before, "C14: header changed by a rejected call");
+        }
+    }
+}
+
+// ================================================================= IpHeaders::set_payload_len
+
+/// AH with an ICV of `words` 32 bit words (RFC 4302: 12 bytes + ICV)
+fn auth_header(words: usize) -> IpAuthHeader {
+    let icv: [u8; 8] = any();
+    match IpAuthHeader::new(IpNumber(any()), any(), any(), &icv[..words * 4]) {
+        Ok(h) => h,
+        Err(_) => panic!("documented acceptance set of IpAuthHeader::new"),
+    }
+}
+
+/// (actual, max_allowed) of a rejected `IpHeaders::set_payload_len(len)`: the function reports
+/// either the caller's value against the caller's maximum or - after adding the extension
+/// headers - the IP payload length against the maximum IP payload length; both name the same
+/// excess in consistent units, the documentation does not say which
+fn ip_headers_err_ok(e: &ValueTooBigError<usize>, len: usize, max: usize, ext_len: usize) -> bool {
+    let caller_units = e.actual == len && e.max_allowed == max;
+    let ip_units = match len.checked_add(ext_len) {
+        Some(total) => e.actual == total && e.max_allowed == max + ext_len,
+        None => false,
+    };
+    witness!(caller_units, "error in caller units");
+    witness!(ip_units && ext_len != 0, "error in ip payload units");
+    caller_units || ip_units
+}
+
+/// `IpHeaders::Ipv4(..).set_payload_len`: options 0..40, optional AH (ICV 0..8), every usize
+pub fn ip_headers_v4_set_payload_len() {
+    let h = ipv4_header();
+    let has_auth = any_bool();
+    let words = any_le(2);
+    let len: usize = any();
+    let j: usize = any();
+    let exts = Ipv4Extensions { auth: if has_auth { Some(auth_header(words)) } else { None } };
+    let ext_len = if has_auth { 12 + 4 * words } else { 0 };
+    assert!(exts.header_len() == ext_len);
+    let hdr = IPV4_BASE + h.options.len();
+    let max = U16_FIELD_MAX - hdr - ext_len;
+    let mut ip = IpHeaders::Ipv4(h.clone(), exts);
+    let r = ip.set_payload_len(len);
+    witness!(r.is_ok() && len == max && has_auth && words == 2 && hdr == 60, "accepted at the limit");
+    witness!(r.is_err() && len == max + 1 && has_auth, "rejected just above the limit (AH)");
+    witness!(r.is_err() && len == max + 1 && !has_auth, "rejected just above the limit (no ext)");
+    witness!(r.is_err() && len == usize::MAX && has_auth, "rejected usize::MAX (sum overflows)");
+    let (h2, e2) = match &ip {
+        IpHeaders::Ipv4(h2, e2) => (h2, e2),
+        _ => panic!("C14: variant changed"),
+    };
+    assert!(e2.header_len() == ext_len);
+    match r {
+        Ok(()) => {
+            assert!(len <= max, "C14: value above the field maximum accepted");
+            assert!(usize::from(h2.total_len) == hdr + ext_len + len);
+            let b = h2.to_bytes();
+            assert!(usize::from(u16::from_be_bytes([b[2], b[3]])) == hdr + ext_len + len, "C14: encoded total length");
+            let mut back = h2.clone();
+            back.total_len = h.total_len;
+            assert!(ipv4_same(&back, &h, j));
+        }
+        Err(e) => {
+            assert!(len > max, "C14: representable value rejected");
+            assert!(e.value_type == ValueType::Ipv4PayloadLength);
+            assert!(ip_headers_err_ok(&e, len, max, ext_len), "C14: error does not carry (offending, allowed)");
+            assert!(ipv4_same(h2, &h, j), "C14: header changed by a rejected call");
+        }
+    }
+}
+
+/// `IpHeaders::Ipv6(..).set_payload_len`: optional fragment header and AH, every usize
+pub fn ip_headers_v6_set_payload_len() {
+    let h = ipv6_header();
+    let has_frag = any_bool();
+    let has_auth = any_bool();
+    let words = any_le(2);
+    let len: usize = any();
+    let frag = Ipv6FragmentHeader::new(IpNumber(any()), frag_offset(), any_bool(), any());
+    let exts = Ipv6Extensions {
+        fragment: if has_frag { Some(frag) } else { None },
+        auth: if has_auth { Some(auth_header(words)) } else { None },
+        ..Default::default()
+    };
+    // RFC 8200 4.5: fragment header 8 bytes; RFC 4302: 12 + ICV
+    let ext_len = (if has_frag { 8 } else { 0 }) + (if has_auth { 12 + 4 * words } else { 0 });
+    assert!(exts.header_len() == ext_len);
+    let max = U16_FIELD_MAX - ext_len;
+    let mut ip = IpHeaders::Ipv6(h.clone(), exts);
+    let r = ip.set_payload_len(len);
+    witness!(r.is_ok() && len == max && has_auth && has_frag, "accepted at the limit");
+    witness!(r.is_err() && len == max + 1 && has_frag, "rejected just above the limit (ext)");
+    witness!(r.is_err() && len == max + 1 && ext_len == 0, "rejected just above the limit (no ext)");
+    witness!(r.is_err() && len == usize::MAX && ext_len != 0, "rejected usize::MAX (sum overflows)");
+    let (h2, e2) = match &ip {
+        IpHeaders::Ipv6(h2, e2) => (h2, e2),
+        _ => panic!("C14: variant changed"),
+    };
+    assert!(e2.header_len() == ext_len);
+    match r {
+        Ok(()) => {
+            assert!(len <= max, "C14: value above the field maximum accepted");
+            assert!(usize::from(h2.payload_length) == ext_len + len);
+            let b = h2.to_bytes();
+            assert!(usize::from(u16::from_be_bytes([b[4], b[5]])) == ext_len + len, "C14: encoded payload length");
+            let mut back = h2.clone();
+            back.payload_length = h.payload_length;
+            assert!(back == h);
+        }
+        Err(e) => {
+            assert!(len > max, "C14: representable value rejected");
+            assert!(ip_headers_err_ok(&e, len, max, ext_len), "C14: error does not carry (offending, allowed)");
+            assert!(*h2 == h, "C14: header changed by a rejected call");
+            // the value type of the `len + extension headers overflows usize` arm is decided by
+            // ip_headers_v6_overflow_value_type (known finding, kept in a lean harness so that the
+            // counterexample trace stays small enough for the native replay)
+            if len.checked_add(ext_len).is_some() {
+                assert!(e.value_type == ValueType::Ipv6PayloadLength, "C14: wrong value type");
+            }
+        }
+    }
+}
+
+/// `IpHeaders::Ipv6(..).set_payload_len(len)` where `len + extension headers` overflows usize:
+/// rejected with the IPv6 value type
+pub fn ip_headers_v6_overflow_value_type() {
+    let len: usize = any();
+    assume(len > usize::MAX - 8);
+    let frag = Ipv6FragmentHeader::new(IpNumber(17), IpFragOffset::ZERO, false, 0);
+    let mut ip = IpHeaders::Ipv6(Ipv6Header::default(), Ipv6Extensions { fragment: Some(frag), ..Default::default() });
+    match ip.set_payload_len(len) {
+        Ok(()) => panic!("C14: value above the field maximum accepted"),
+        Err(e) => {
+            assert!(e.actual == len && e.max_allowed == U16_FIELD_MAX - 8, "C14: error does not carry (offending, allowed)");
+            // known finding: this arm reports the IPv4 value type (net/ip_headers.rs, copy of the
+            // IPv4 arm above it)
+            if e.value_type == ValueType::Ipv4PayloadLength {
+                witness!(true, "KF:c14-ip-headers-v6-overflow-value-type");
+            } else {
+                assert!(e.value_type == ValueType::Ipv6PayloadLength, "C14: wrong value type");
+            }
+        }
+    }
+}
+
+// ================================================================= UDP (length given as a number)
+
+/// `UdpHeader::without_ipv4_checksum`: 8 + payload must fit the 16 bit UDP length
+pub fn udp_without_checksum() {
+    let sp: u16 = any();
+    let dp: u16 = any();
+    let len: usize = any();
+    let max = U16_FIELD_MAX - UDP_HDR;
+    let r = UdpHeader::without_ipv4_checksum(sp, dp, len);
+    witness!(r.is_ok() && len == max, "accepted at the limit");
+    witness!(r.is_err() && len == max + 1, "rejected just above the limit");
+    witness!(r.is_err() && len == U16_FIELD_MAX + 1, "rejected 2^16");
+    witness!(r.is_err() && len == usize::MAX, "rejected usize::MAX");
+    match r {
+        Ok(h) => {
+            assert!(len <= max, "C14: value above the field maximum accepted");
+            assert!(usize::from(h.length) == UDP_HDR + len);
+            let b = h.to_bytes();
+            assert!(usize::from(u16::from_be_bytes([b[4], b[5]])) == UDP_HDR + len, "C14: encoded UDP length");
+            assert!(h.source_port == sp && h.destination_port == dp && h.checksum == 0);
+        }
+        Err(e) => {
+            assert!(len > max, "C14: representable value rejected");
+            assert!(e.actual == len);
+            assert!(e.max_allowed == max);
+            assert!(e.value_type == ValueType::UdpPayloadLengthIpv4);
+        }
+    }
+}
+
+// ================================================================= MACsec short length
+
+/// `MacsecShortLen::{try_from_u8, from_len}`: 6 bit field, too long => documented 'unknown' 0
+pub fn macsec_short_len() {
+    let v: u8 = any();
+    let max: u8 = (1 << 6) - 1;
+    let r = MacsecShortLen::try_from_u8(v);
+    witness!(r.is_ok() && v == max, "accepted at the limit");
+    witness!(r.is_err() && v == max + 1, "rejected just above the limit");
+    match r {
+        Ok(s) => {
+            assert!(v <= max, "C14: value above the field maximum accepted");
+            assert!(s.value() == v);
+        }
+        Err(e) => {
+            assert!(v > max, "C14: representable value rejected");
+            assert!(e.actual == v && e.max_allowed == max && e.value_type == ValueType::MacsecShortLen);
+        }
+    }
+    let len: usize = any();
+    let s = MacsecShortLen::from_len(len);
+    witness!(len == 63 && s.value() == 63, "from_len at the limit");
+    witness!(len == 64, "from_len just above the limit");
+    witness!(len == 256 + 5, "from_len value whose low byte would fit");
+    if len <= usize::from(max) {
+        assert!(usize::from(s.value()) == len, "C14: representable length not stored exactly");
+    } else {
+        assert!(s.value() == 0, "C14: too long a length must become the 'unknown' short length 0");
+    }
+}
+
+fn macsec_header() -> MacsecHeader {
+    let k: u8 = any();
+    assume(k < 4);
+    let ptype = match k {
+        0 => MacsecPType::Unmodified(EtherType(any())),
+        1 => MacsecPType::Modified,
+        2 => MacsecPType::Encrypted,
+        _ => MacsecPType::EncryptedUnmodified,
+    };
+    let an: u8 = any();
+    assume(an < 4);
+    let sl: u8 = any();
+    assume(sl < 64);
+    let sci: u64 = any();
+    MacsecHeader {
+        ptype,
+        endstation_id: any_bool(),
+        scb: any_bool(),
+        an: MacsecAn::try_new(an).unwrap(),
+        short_len: MacsecShortLen::try_from_u8(sl).unwrap(),
+        packet_nr: any(),
+        sci: if any_bool() { Some(sci) } else { None },
+    }
+}
+
+/// `MacsecHeader::set_payload_len`: the short length counts the ether type of an unmodified
+/// payload (2 bytes, IEEE 802.1AE: SL = octets after the SecTAG); what does not fit the 6 bit
+/// field is stored as 0 = unknown, never truncated
+pub fn macsec_set_payload_len() {
+    let mut h = macsec_header();
+    let len: usize = any();
+    let before = h.clone();
+    let extra = if matches!(h.ptype, MacsecPType::Unmodified(_)) { 2usize } else { 0 };
+    let max = 63 - extra;
+    h.set_payload_len(len);
+    let sl = usize::from(h.short_len.value());
+    witness!(len == max && extra == 2 && sl == 63, "unmodified at the limit");
+    witness!(len == max && extra == 0 && sl == 63, "modified at the limit");
+    witness!(len == max + 1 && extra == 2, "unmodified just above the limit");
+    witness!(len == max + 1 && extra == 0, "modified just above the limit");
+    witness!(len == 256 && sl == 0, "low byte zero");
+    if len <= max {
+        assert!(sl == len + extra, "C14: representable length not stored exactly");
+        if sl != 0 {
+            assert!(h.expected_payload_len() == Some(len), "C14: decodes to the value given");
+        }
+    } else {
+        assert!(sl == 0, "C14: too long a length must become the 'unknown' short length 0");
+        assert!(h.expected_payload_len().is_none());
+    }
+    let b = h.to_bytes();
+    assert!(usize::from(b[1]) == sl, "C14: encoded short length");
+    // nothing but the short length changed
+    let mut back = h.clone();
+    back.short_len = before.short_len;
+    assert!(back == before);
+}
+
+// ================================================================= UDP (payload given as a slice)
+
+/// number of logged 2 byte kernel calls carrying `v` (big endian)
+#[cfg(kani)]
+fn words16(v: usize) -> usize {
+    ghost::count_word(2, ghost::w16(v as u16))
+}
+/// number of logged 4 byte kernel calls carrying `v` (big endian)
+#[cfg(kani)]
+fn words32(v: usize) -> usize {
+    ghost::count_word(4, ghost::w32(v as u32))
+}
+
+fn check_too_big(e: &ValueTooBigError<usize>, actual: usize, max: usize, vt: ValueType) {
+    assert!(e.actual == actual, "C14: error does not carry the offending value");
+    assert!(e.max_allowed == max, "C14: error does not carry the true maximum");
+    assert!(e.value_type == vt, "C14: wrong value type");
+}
+
+/// `UdpHeader::with_ipv4_checksum`, `calc_checksum_ipv4(_raw)`: 8 + payload must fit the 16 bit
+/// UDP length (= the 16 bit length of the RFC 768 pseudo header)
+pub fn udp_ipv4_slice() {
+    let sp: u16 = any();
+    let dp: u16 = any();
+    let ip = ipv4_header();
+    let len: usize = any();
+    let which = any_le(2);
+    let mut pre = UdpHeader { source_port: any(), destination_port: any(), length: any(), checksum: any() };
+    let z = Zeros::new(len);
+    let max = U16_FIELD_MAX - UDP_HDR;
+    ghost::reset();
+    witness!(len == max, "at the limit");
+    witness!(len == max + 1, "just above the limit");
+    witness!(len == U16_FIELD_MAX + 1 + 3, "low 16 bits would fit");
+    witness!(len == MAX_OBJ, "largest object");
+    match which {
+        0 => {
+            let r = UdpHeader::with_ipv4_checksum(sp, dp, &ip, z.slice());
+            witness!(r.is_ok(), "with: ok");
+            witness!(r.is_err(), "with: err");
+            match r {
+                Ok(h) => {
+                    assert!(len <= max, "C14: value above the field maximum accepted");
+                    assert!(usize::from(h.length) == UDP_HDR + len);
+                    let b = h.to_bytes();
+                    assert!(usize::from(u16::from_be_bytes([b[4], b[5]])) == UDP_HDR + len, "C14: encoded UDP length");
+                    assert!(h.source_port == sp && h.destination_port == dp);
+                    #[cfg(kani)]
+                    {
+                        // pseudo header length and header length word, both 8 + len
+                        assert!(words16(UDP_HDR + len) >= 2, "C14: length word summed into the checksum");
+                        assert!(ghost::count_slice(len) == 1, "C14: whole payload summed");
+                    }
+                }
+                Err(e) => {
+                    assert!(len > max, "C14: representable value rejected");
+                    check_too_big(&e, len, max, ValueType::UdpPayloadLengthIpv4);
+                }
+            }
+        }
+        _ => {
+            let before = pre.clone();
+            let r = if which == 1 {
+                pre.calc_checksum_ipv4(&ip, z.slice())
+            } else {
+                pre.calc_checksum_ipv4_raw(ip.source, ip.destination, z.slice())
+            };
+            witness!(r.is_ok() && which == 1, "calc: ok");
+            witness!(r.is_err() && which == 1, "calc: err");
+            witness!(r.is_ok() && which == 2, "calc_raw: ok");
+            witness!(r.is_err() && which == 2, "calc_raw: err");
+            match r {
+                Ok(_) => {
+                    assert!(len <= max, "C14: value above the field maximum accepted");
+                    #[cfg(kani)]
+                    assert!(ghost::count_slice(len) == 1, "C14: whole payload summed");
+                }
+                Err(e) => {
+                    assert!(len > max, "C14: representable value rejected");
+                    check_too_big(&e, len, max, ValueType::UdpPayloadLengthIpv4);
+                }
+            }
+            assert!(pre == before);
+        }
+    }
+}
+
+/// `UdpHeader::with_ipv6_checksum` (8 + payload must fit the 16 bit UDP length) and
+/// `calc_checksum_ipv6(_raw)` (8 + payload must fit the 32 bit upper-layer packet length of the
+/// RFC 8200 8.1 pseudo header)
+pub fn udp_ipv6_slice() {
+    let sp: u16 = any();
+    let dp: u16 = any();
+    let ip = ipv6_header();
+    let len: usize = any();
+    let which = any_le(2);
+    let mut pre = UdpHeader { source_port: any(), destination_port: any(), length: any(), checksum: any() };
+    let z = Zeros::new(len);
+    ghost::reset();
+    witness!(len == U16_FIELD_MAX - UDP_HDR, "at the 16 bit limit");
+    witness!(len == U16_FIELD_MAX - UDP_HDR + 1, "just above the 16 bit limit");
+    witness!(len == U32_FIELD_MAX - UDP_HDR, "at the 32 bit limit");
+    witness!(len == U32_FIELD_MAX - UDP_HDR + 1, "just above the 32 bit limit");
+    witness!(len == MAX_OBJ, "largest object");
+    match which {
+        0 => {
+            let max = U16_FIELD_MAX - UDP_HDR;
+            let r = UdpHeader::with_ipv6_checksum(sp, dp, &ip, z.slice());
+            witness!(r.is_ok(), "with: ok");
+            witness!(r.is_err(), "with: err");
+            match r {
+                Ok(h) => {
+                    assert!(len <= max, "C14: value above the field maximum accepted");
+                    assert!(usize::from(h.length) == UDP_HDR + len);
+                    let b = h.to_bytes();
+                    assert!(usize::from(u16::from_be_bytes([b[4], b[5]])) == UDP_HDR + len, "C14: encoded UDP length");
+                    assert!(h.source_port == sp && h.destination_port == dp);
+                    #[cfg(kani)]
+                    {
+                        assert!(words16(UDP_HDR + len) >= 2, "C14: length word summed into the checksum");
+                        assert!(ghost::count_slice(len) == 1, "C14: whole payload summed");
+                    }
+                }
+                Err(e) => {
+                    assert!(len > max, "C14: representable value rejected");
+                    check_too_big(&e, len, max, ValueType::UdpPayloadLengthIpv6);
+                }
+            }
+        }
+        _ => {
+            let max = U32_FIELD_MAX - UDP_HDR;
+            let before = pre.clone();
+            let r = if which == 1 {
+                pre.calc_checksum_ipv6(&ip, z.slice())
+            } else {
+                pre.calc_checksum_ipv6_raw(ip.source, ip.destination, z.slice())
+            };
+            witness!(r.is_ok() && which == 1, "calc: ok");
+            witness!(r.is_err() && which == 1, "calc: err");
+            witness!(r.is_ok() && which == 2, "calc_raw: ok");
+            witness!(r.is_err() && which == 2, "calc_raw: err");
+            match r {
+                Ok(_) => {
+                    assert!(len <= max, "C14: value above the field maximum accepted");
+                    #[cfg(kani)]
+                    assert!(ghost::count_slice(len) == 1, "C14: whole payload summed");
+                }
+                Err(e) => {
+                    assert!(len > max, "C14: representable value rejected");
+                    check_too_big(&e, len, max, ValueType::UdpPayloadLengthIpv6);
+                }
+            }
+            assert!(pre == before);
+        }
+    }
+}
+
+// ================================================================= TCP
+
+/// all field values, options of every accepted length 0..=40 (padded to a multiple of 4)
+fn tcp_header() -> TcpHeader {
+    let ol = any_le(40);
+    let data: [u8; 40] = any();
+    let options = match TcpOptions::try_from_slice(&data[..ol]) {
+        Ok(o) => o,
+        Err(_) => panic!("documented acceptance set of TcpOptions"),
+    };
+    TcpHeader {
+        source_port: any(),
+        destination_port: any(),
+        sequence_number: any(),
+        acknowledgment_number: any(),
+        ns: any_bool(),
+        fin: any_bool(),
+        syn: any_bool(),
+        rst: any_bool(),
+        psh: any_bool(),
+        ack: any_bool(),
+        urg: any_bool(),
+        ece: any_bool(),
+        cwr: any_bool(),
+        window_size: any(),
+        checksum: any(),
+        urgent_pointer: any(),
+        options,
+    }
+}
+
+/// `TcpHeader::calc_checksum_ipv4(_raw)`: header + payload must fit the 16 bit TCP length of
+/// the pseudo header (RFC 9293 3.1)
+pub fn tcp_header_ipv4() {
+    let h = tcp_header();
+    let ip = ipv4_header();
+    let len: usize = any();
+    let raw = any_bool();
+    let z = Zeros::new(len);
+    let hdr = TCP_BASE + h.options.len();
+    assert!(hdr % 4 == 0 && hdr <= 60 && h.header_len() == hdr);
+    let max = U16_FIELD_MAX - hdr;
+    ghost::reset();
+    let r = if raw {
+        h.calc_checksum_ipv4_raw(ip.source, ip.destination, z.slice())
+    } else {
+        h.calc_checksum_ipv4(&ip, z.slice())
+    };
+    witness!(r.is_ok() && len == max && hdr == 60, "accepted at the limit, full options");
+    witness!(r.is_ok() && len == max && hdr == 20 && raw, "accepted at the limit (raw)");
+    witness!(r.is_err() && len == max + 1 && !raw, "rejected just above the limit");
+    witness!(r.is_err() && len == max + 1 && raw, "rejected just above the limit (raw)");
+    witness!(r.is_err() && len == U16_FIELD_MAX + 1, "rejected 2^16");
+    witness!(r.is_err() && len == MAX_OBJ, "rejected largest object");
+    match r {
+        Ok(_) => {
+            assert!(len <= max, "C14: value above the field maximum accepted");
+            #[cfg(kani)]
+            {
+                assert!(words16(hdr + len) >= 1, "C14: TCP length word summed into the checksum");
+                assert!(ghost::count_slice(len) >= 1, "C14: whole payload summed");
+            }
+        }
+        Err(e) => {
+            assert!(len > max, "C14: representable value rejected");
+            check_too_big(&e, len, max, ValueType::TcpPayloadLengthIpv4);
+        }
+    }
+}
+
+/// `TcpHeader::calc_checksum_ipv6(_raw)`: header + payload must fit the 32 bit upper-layer
+/// packet length (RFC 8200 8.1)
+pub fn tcp_header_ipv6() {
+    let h = tcp_header();
+    let ip = ipv6_header();
+    let len: usize = any();
+    let raw = any_bool();
+    let z = Zeros::new(len);
+    let hdr = TCP_BASE + h.options.len();
+    let max = U32_FIELD_MAX - hdr;
+    ghost::reset();
+    let r = if raw {
+        h.calc_checksum_ipv6_raw(ip.source, ip.destination, z.slice())
+    } else {
+        h.calc_checksum_ipv6(&ip, z.slice())
+    };
+    witness!(r.is_ok() && len == max && hdr == 60, "accepted at the limit, full options");
+    witness!(r.is_ok() && len == max && hdr == 20 && raw, "accepted at the limit (raw)");
+    witness!(r.is_ok() && len == U16_FIELD_MAX + 1, "accepted 2^16");
+    witness!(r.is_err() && len == max + 1 && !raw, "rejected just above the limit");
+    witness!(r.is_err() && len == max + 1 && raw, "rejected just above the limit (raw)");
+    witness!(r.is_err() && len == MAX_OBJ, "rejected largest object");
+    match r {
+        Ok(_) => {
+            assert!(len <= max, "C14: value above the field maximum accepted");
+            #[cfg(kani)]
+            {
+                assert!(words32(hdr + len) >= 1, "C14: TCP length summed into the checksum");
+                assert!(ghost::count_slice(len) >= 1, "C14: whole payload summed");
+            }
+        }
+        Err(e) => {
+            assert!(len > max, "C14: representable value rejected");
+            check_too_big(&e, len, max, ValueType::TcpPayloadLengthIpv6);
+        }
+    }
+}
+
+/// `TcpSlice::calc_checksum_ipv4 / ipv6`: the slice is the whole segment (header + payload), its
+/// length is what the pseudo header carries (16 bit for IPv4, 32 bit for IPv6)
+pub fn tcp_slice_calc() {
+    let len: usize = any();
+    let doff: u8 = any();
+    let v6 = any_bool();
+    let src4: [u8; 4] = any();
+    let dst4: [u8; 4] = any();
+    let src6: [u8; 16] = any();
+    let dst6: [u8; 16] = any();
+    assume(5 <= doff && doff <= 15);
+    let hdr = usize::from(doff) * 4;
+    assume(len >= hdr);
+    let mut z = Zeros::new(len);
+    z.slice_mut()[12] = doff << 4;
+    let s = match TcpSlice::from_slice(z.slice()) {
+        Ok(s) => s,
+        Err(_) => panic!("a segment that holds its header is accepted"),
+    };
+    assert!(s.payload().len() == len - hdr);
+    ghost::reset();
+    let (r, max, vt) = if v6 {
+        (s.calc_checksum_ipv6(src6, dst6), U32_FIELD_MAX, ValueType::TcpPayloadLengthIpv6)
+    } else {
+        (s.calc_checksum_ipv4(src4, dst4), U16_FIELD_MAX, ValueType::TcpPayloadLengthIpv4)
+    };
+    witness!(r.is_ok() && len == max && !v6 && doff == 15, "v4 accepted at the limit");
+    witness!(r.is_err() && len == max + 1 && !v6, "v4 rejected just above the limit");
+    witness!(r.is_ok() && len == max && v6, "v6 accepted at the limit");
+    witness!(r.is_err() && len == max + 1 && v6, "v6 rejected just above the limit");
+    witness!(r.is_err() && len == MAX_OBJ, "rejected largest object");
+    match r {
+        Ok(_) => {
+            assert!(len <= max, "C14: value above the field maximum accepted");
+            #[cfg(kani)]
+            {
+                if v6 {
+                    assert!(words32(len) >= 1, "C14: TCP length summed into the checksum");
+                } else {
+                    assert!(words16(len) >= 1, "C14: TCP length word summed into the checksum");
+                }
+                // everything behind the checksum field, i.e. the whole payload, is summed
+                assert!(ghost::count_slice(len - 18) >= 1, "C14: whole payload summed");
+            }
+        }
+        Err(e) => {
+            assert!(len > max, "C14: representable value rejected");
+            check_too_big(&e, len, max, vt);
+        }
+    }
+}
+
+/// `TcpHeaderSlice::calc_checksum_ipv4_raw / ipv6_raw`
+pub fn tcp_header_slice_calc() {
+    let len: usize = any();
+    let doff: u8 = any();
+    let v6 = any_bool();
+    let src4: [u8; 4] = any();
+    let dst4: [u8; 4] = any();
+    let src6: [u8; 16] = any();
+    let dst6: [u8; 16] = any();
+    let mut bytes: [u8; 60] = any();
+    assume(5 <= doff && doff <= 15);
+    let hdr = usize::from(doff) * 4;
+    bytes[12] = (doff << 4) | (bytes[12] & 0x0f);
+    let z = Zeros::new(len);
+    let s = match TcpHeaderSlice::from_slice(&bytes[..hdr]) {
+        Ok(s) => s,
+        Err(_) => panic!("a complete header is accepted"),
+    };
+    assert!(s.slice().len() == hdr);
+    ghost::reset();
+    let (r, max, vt) = if v6 {
+        (s.calc_checksum_ipv6_raw(src6, dst6, z.slice()), U32_FIELD_MAX - hdr, ValueType::TcpPayloadLengthIpv6)
+    } else {
+        (s.calc_checksum_ipv4_raw(src4, dst4, z.slice()), U16_FIELD_MAX - hdr, ValueType::TcpPayloadLengthIpv4)
+    };
+    witness!(r.is_ok() && len == max && !v6 && doff == 15, "v4 accepted at the limit");
+    witness!(r.is_err() && len == max + 1 && !v6, "v4 rejected just above the limit");
+    witness!(r.is_ok() && len == max && v6, "v6 accepted at the limit");
+    witness!(r.is_err() && len == max + 1 && v6, "v6 rejected just above the limit");
+    witness!(r.is_err() && len == MAX_OBJ, "rejected largest object");
+    match r {
+        Ok(_) => {
+            assert!(len <= max, "C14: value above the field maximum accepted");
+            #[cfg(kani)]
+            {
+                if v6 {
+                    assert!(words32(hdr + len) >= 1, "C14: TCP length summed into the checksum");
+                } else {
+                    assert!(words16(hdr + len) >= 1, "C14: TCP length word summed into the checksum");
+                }
+                assert!(ghost::count_slice(len) >= 1, "C14: whole payload summed");
+            }
+        }
+        Err(e) => {
+            assert!(len > max, "C14: representable value rejected");
+            check_too_big(&e, len, max, vt);
+        }
+    }
+}
+
+// ================================================================= ICMPv6
+
+/// every variant of `Icmpv6Type` (a missing dispatch arm of the checksum would show)
+fn icmpv6_type() -> Icmpv6Type {
+    use icmpv6::*;
+    use Icmpv6Type::*;
+    let k: u8 = any();
+    assume(k < 12);
+    match k {
+        0 => Unknown { type_u8: any(), code_u8: any(), bytes5to8: any() },
+        1 => {
+            use DestUnreachableCode::*;
+            let c: u8 = any();
+            assume(c < 7);
+            DestinationUnreachable(match c {
+                0 => NoRoute,
+                1 => Prohibited,
+                2 => BeyondScope,
+                3 => Address,
+                4 => Port,
+                5 => SourceAddressFailedPolicy,
+                _ => RejectRoute,
+            })
+        }
+        2 => PacketTooBig { mtu: any() },
+        3 => TimeExceeded(if any_bool() {
+            TimeExceededCode::HopLimitExceeded
+        } else {
+            TimeExceededCode::FragmentReassemblyTimeExceeded
+        }),
+        4 => ParameterProblem(ParameterProblemHeader {
+            code: if any_bool() {
+                ParameterProblemCode::ErroneousHeaderField
+            } else {
+                ParameterProblemCode::OptionTooBig
+            },
+            pointer: any(),
+        }),
+        5 => EchoRequest(IcmpEchoHeader { id: any(), seq: any() }),
+        6 => EchoReply(IcmpEchoHeader { id: any(), seq: any() }),
+        7 => RouterSolicitation,
+        8 => RouterAdvertisement(RouterAdvertisementHeader {
+            cur_hop_limit: any(),
+            managed_address_config: any_bool(),
+            other_config: any_bool(),
+            router_lifetime: any(),
+        }),
+        9 => NeighborSolicitation,
+        10 => NeighborAdvertisement(NeighborAdvertisementHeader {
+            router: any_bool(),
+            solicited: any_bool(),
+            r#override: any_bool(),
+        }),
+        _ => Redirect,
+    }
+}
+
+/// `Icmpv6Type::calc_checksum`, `Icmpv6Header::{with_checksum, update_checksum}`: 8 + payload
+/// must fit the 32 bit upper-layer packet length of the pseudo header (RFC 4443 2.3, RFC 8200 8.1)
+pub fn icmpv6_calc() {
+    let t = icmpv6_type();
+    let src: [u8; 16] = any();
+    let dst: [u8; 16] = any();
+    let len: usize = any();
+    let which = any_le(2);
+    let old_checksum: u16 = any();
+    let z = Zeros::new(len);
+    let max = U32_FIELD_MAX - ICMPV6_HDR;
+    assert!(t.header_len() == ICMPV6_HDR);
+    ghost::reset();
+    let mut hdr = Icmpv6Header { icmp_type: t.clone(), checksum: old_checksum };
+    let r: Result<(), ValueTooBigError<usize>> = match which {
+        0 => t.calc_checksum(src, dst, z.slice()).map(|_| ()),
+        1 => Icmpv6Header::with_checksum(t.clone(), src, dst, z.slice()).map(|h| {
+            assert!(h.icmp_type == t);
+        }),
+        _ => hdr.update_checksum(src, dst, z.slice()),
+    };
+    witness!(r.is_ok() && len == max && which == 0, "calc accepted at the limit");
+    witness!(r.is_err() && len == max + 1 && which == 0, "calc rejected just above the limit");
+    witness!(r.is_ok() && len == max && which == 1, "with accepted at the limit");
+    witness!(r.is_err() && len == max + 1 && which == 1, "with rejected just above the limit");
+    witness!(r.is_ok() && len == max && which == 2, "update accepted at the limit");
+    witness!(r.is_err() && len == max + 1 && which == 2, "update rejected just above the limit");
+    witness!(r.is_ok() && len == U16_FIELD_MAX + 1, "accepted 2^16");
+    witness!(r.is_err() && len == MAX_OBJ, "rejected largest object");
+    assert!(hdr.icmp_type == t);
+    match r {
+        Ok(()) => {
+            assert!(len <= max, "C14: value above the field maximum accepted");
+            #[cfg(kani)]
+            {
+                assert!(words32(ICMPV6_HDR + len) >= 1, "C14: ICMPv6 length summed into the checksum");
+                assert!(ghost::count_slice(len) == 1, "C14: whole payload summed");
+            }
+        }
+        Err(e) => {
+            assert!(len > max, "C14: representable value rejected");
+            check_too_big(&e, len, max, ValueType::Icmpv6PayloadLength);
+            assert!(hdr.checksum == old_checksum, "C14: header changed by a rejected call");
+        }
+    }
+}
+
+// ================================================================= option areas, ICV, extension payload
+
+/// `std::io::Write` that keeps the first 64 bytes and counts the rest (never fails, no loop)
+pub struct Capture {
+    pub buf: [u8; 64],
+    pub pos: usize,
+    pub total: usize,
+}
+impl Capture {
+    pub fn new() -> Capture {
+        Capture { buf: [0; 64], pos: 0, total: 0 }
+    }
+}
+impl std::io::Write for Capture {
+    fn write(&mut self, d: &[u8]) -> std::io::Result<usize> {
+        let room = 64 - self.pos;
+        let n = if d.len() < room { d.len() } else { room };
+        self.buf[self.pos..self.pos + n].copy_from_slice(&d[..n]);
+        self.pos += n;
+        self.total += d.len();
+        Ok(d.len())
+    }
+    fn write_all(&mut self, d: &[u8]) -> std::io::Result<()> {
+        self.write(d).map(|_| ())
+    }
+    fn flush(&mut self) -> std::io::Result<()> {
+        Ok(())
+    }
+}
+
+/// a zero object of `len` bytes with ONE symbolic byte at a symbolic position
+fn marked(len: usize) -> (Zeros, usize, u8) {
+    let j: usize = any();
+    let v: u8 = any();
+    let mut z = Zeros::new(len);
+    if j < len {
+        z.slice_mut()[j] = v;
+    }
+    (z, j, v)
+}
+
+/// RFC 4302 2.2: payload len is an 8 bit count of 32 bit words minus 2, the fixed part has 12
+/// bytes => the ICV has at most (255 + 2) * 4 - 12 bytes and is a multiple of 4
+const AH_MAX_ICV: usize = (255 + 2) * 4 - 12;
+
+fn auth_check_ok(h: &IpAuthHeader, len: usize, j: usize, v: u8) {
+    assert!(len <= AH_MAX_ICV && len % 4 == 0, "C14: unrepresentable ICV length accepted");
+    assert!(h.raw_icv().len() == len);
+    assert!(h.header_len() == 12 + len);
+    if j < len {
+        assert!(h.raw_icv()[j] == v);
+    }
+    let mut w = Capture::new();
+    let _ = h.write(&mut w);
+    assert!(w.total == 12 + len);
+    // decode the encoded payload length field
+    assert!((usize::from(w.buf[1]) + 2) * 4 - 12 == len, "C14: encoded AH payload length");
+}
+
+fn auth_check_err(e: &err::ip_auth::IcvLenError, len: usize) {
+    use err::ip_auth::IcvLenError::*;
+    assert!(len > AH_MAX_ICV || len % 4 != 0, "C14: representable ICV length rejected");
+    match e {
+        TooBig(l) => assert!(*l == len && len > AH_MAX_ICV, "C14: error does not describe the fault"),
+        Unaligned(l) => assert!(*l == len && len % 4 != 0, "C14: error does not describe the fault"),
+    }
+}
+
+/// `IpAuthHeader::new`, every slice length
+pub fn auth_new() {
+    let len: usize = any();
+    let nh: u8 = any();
+    let spi: u32 = any();
+    let seq: u32 = any();
+    let (z, j, v) = marked(len);
+    let r = IpAuthHeader::new(IpNumber(nh), spi, seq, z.slice());
+    witness!(r.is_ok() && len == AH_MAX_ICV, "accepted at the limit");
+    witness!(r.is_ok() && len == 0, "accepted empty");
+    witness!(r.is_err() && len == AH_MAX_ICV + 4, "rejected just above the limit");
+    witness!(r.is_err() && len == AH_MAX_ICV - 1, "rejected unaligned");
+    witness!(r.is_err() && len == 1024 + 256 * 4, "rejected: word count whose low byte would fit");
+    witness!(r.is_err() && len == MAX_OBJ, "rejected largest object");
+    match r {
+        Ok(h) => {
+            auth_check_ok(&h, len, j, v);
+            assert!(h.next_header.0 == nh && h.spi == spi && h.sequence_number == seq);
+        }
+        Err(e) => auth_check_err(&e, len),
+    }
+}
+
+/// `IpAuthHeader::set_raw_icv`, every slice length, header with a previous ICV of 0..8 bytes
+pub fn auth_set_raw_icv() {
+    let len: usize = any();
+    let words = any_le(2);
+    let mut h = auth_header(words);
+    let (nh, spi, seq) = (h.next_header, h.spi, h.sequence_number);
+    let k: usize = any();
+    assume(k < 8);
+    let old_k = if k < words * 4 { h.raw_icv()[k] } else { 0 };
+    let (z, j, v) = marked(len);
+    let r = h.set_raw_icv(z.slice());
+    witness!(r.is_ok() && len == AH_MAX_ICV, "accepted at the limit");
+    witness!(r.is_ok() && len == 0 && words == 2, "accepted empty");
+    witness!(r.is_err() && len == AH_MAX_ICV + 4, "rejected just above the limit");
+    witness!(r.is_err() && len == 5 && words == 2, "rejected unaligned");
+    witness!(r.is_err() && len == MAX_OBJ, "rejected largest object");
+    assert!(h.next_header == nh && h.spi == spi && h.sequence_number == seq);
+    match r {
+        Ok(()) => auth_check_ok(&h, len, j, v),
+        Err(e) => {
+            auth_check_err(&e, len);
+            assert!(h.raw_icv().len() == words * 4, "C14: header changed by a rejected call");
+            assert!(h.header_len() == 12 + words * 4);
+            if k < words * 4 {
+                assert!(h.raw_icv()[k] == old_k, "C14: header changed by a rejected call");
+            }
+        }
+    }
+}
+
+/// RFC 8200 4.3: hdr ext len is an 8 bit count of 8 byte units not including the first 8 bytes;
+/// 2 of the bytes are next header + length => payload = 8 * (n + 1) - 2, n <= 255
+const EXT_MIN_PAYLOAD: usize = 8 - 2;
+const EXT_MAX_PAYLOAD: usize = 8 * (255 + 1) - 2;
+
+fn ext_representable(len: usize) -> bool {
+    len >= EXT_MIN_PAYLOAD && len <= EXT_MAX_PAYLOAD && (len + 2) % 8 == 0
+}
+
+fn ext_check_ok(h: &Ipv6RawExtHeader, len: usize, j: usize, v: u8) {
+    assert!(ext_representable(len), "C14: unrepresentable extension payload length accepted");
+    assert!(h.payload().len() == len);
+    assert!(h.header_len() == 2 + len);
+    if j < len {
+        assert!(h.payload()[j] == v);
+    }
+    let mut w = Capture::new();
+    let _ = h.write(&mut w);
+    assert!(w.total == 2 + len);
+    assert!(w.buf[0] == h.next_header.0);
+    assert!((usize::from(w.buf[1]) + 1) * 8 - 2 == len, "C14: encoded hdr ext len");
+}
+
+fn ext_check_err(e: &err::ipv6_exts::ExtPayloadLenError, len: usize) {
+    use err::ipv6_exts::ExtPayloadLenError::*;
+    assert!(!ext_representable(len), "C14: representable extension payload length rejected");
+    match e {
+        TooSmall(l) => assert!(*l == len && len < EXT_MIN_PAYLOAD, "C14: error does not describe the fault"),
+        TooBig(l) => assert!(*l == len && len > EXT_MAX_PAYLOAD, "C14: error does not describe the fault"),
+        Unaligned(l) => assert!(*l == len && (len + 2) % 8 != 0, "C14: error does not describe the fault"),
+    }
+}
+
+/// `Ipv6RawExtHeader::new_raw`, every slice length
+pub fn raw_ext_new() {
+    let len: usize = any();
+    let nh: u8 = any();
+    let (z, j, v) = marked(len);
+    let r = Ipv6RawExtHeader::new_raw(IpNumber(nh), z.slice());
+    witness!(r.is_ok() && len == EXT_MAX_PAYLOAD, "accepted at the limit");
+    witness!(r.is_ok() && len == EXT_MIN_PAYLOAD, "accepted minimum");
+    witness!(r.is_err() && len == EXT_MAX_PAYLOAD + 8, "rejected just above the limit");
+    witness!(r.is_err() && len == EXT_MAX_PAYLOAD - 1, "rejected unaligned");
+    witness!(r.is_err() && len == 5, "rejected too small");
+    witness!(r.is_err() && len == 8 * 256 + 6, "rejected: unit count whose low byte would fit");
+    witness!(r.is_err() && len == MAX_OBJ, "rejected largest object");
+    match r {
+        Ok(h) => {
+            ext_check_ok(&h, len, j, v);
+            assert!(h.next_header.0 == nh);
+        }
+        Err(e) => ext_check_err(&e, len),
+    }
+}
+
+/// `Ipv6RawExtHeader::set_payload`, every slice length, header with a previous payload of 6 or 14
+pub fn raw_ext_set_payload() {
+    let len: usize = any();
+    let nh: u8 = any();
+    let old: [u8; 14] = any();
+    let old_len = if any_bool() { 6 } else { 14 };
+    let k: usize = any();
+    assume(k < old_len);
+    let mut h = match Ipv6RawExtHeader::new_raw(IpNumber(nh), &old[..old_len]) {
+        Ok(h) => h,
+        Err(_) => panic!("documented acceptance set of Ipv6RawExtHeader::new_raw"),
+    };
+    let (z, j, v) = marked(len);
+    let r = h.set_payload(z.slice());
+    witness!(r.is_ok() && len == EXT_MAX_PAYLOAD, "accepted at the limit");
+    witness!(r.is_ok() && len == EXT_MIN_PAYLOAD && old_len == 14, "accepted minimum");
+    witness!(r.is_err() && len == EXT_MAX_PAYLOAD + 8, "rejected just above the limit");
+    witness!(r.is_err() && len == 7, "rejected unaligned");
+    witness!(r.is_err() && len == 0, "rejected too small");
+    witness!(r.is_err() && len == MAX_OBJ, "rejected largest object");
+    assert!(h.next_header.0 == nh);
+    match r {
+        Ok(()) => ext_check_ok(&h, len, j, v),
+        Err(e) => {
+            ext_check_err(&e, len);
+            assert!(h.payload().len() == old_len, "C14: header changed by a rejected call");
+            assert!(h.payload()[k] == old[k], "C14: header changed by a rejected call");
+        }
+    }
+}
+
+/// `Ipv4Options::try_from(&[u8])` and the deprecated `Ipv4Header::set_options`: IHL is a 4 bit
+/// count of 32 bit words, 5 of them are the fixed header => at most 40 bytes, multiple of 4
+#[allow(deprecated)]
+pub fn ipv4_options_try_from() {
+    let len: usize = any();
+    let via_header = any_bool();
+    let mut h = ipv4_header();
+    let before = h.clone();
+    let jj: usize = any();
+    let (z, j, v) = marked(len);
+    let max = (15 - 5) * 4;
+    let ok = len <= max && len % 4 == 0;
+    let r = if via_header {
+        h.set_options(z.slice()).map(|_| h.options.clone())
+    } else {
+        Ipv4Options::try_from(z.slice())
+    };
+    witness!(r.is_ok() && len == max && via_header, "accepted at the limit (header)");
+    witness!(r.is_ok() && len == max && !via_header, "accepted at the limit");
+    witness!(r.is_err() && len == max + 4, "rejected just above the limit");
+    witness!(r.is_err() && len == max + 1, "rejected 41");
+    witness!(r.is_err() && len == 39, "rejected unaligned");
+    witness!(r.is_err() && len == 256 + 4, "rejected: low byte would fit");
+    witness!(r.is_err() && len == MAX_OBJ, "rejected largest object");
+    match r {
+        Ok(o) => {
+            assert!(ok, "C14: unrepresentable options length accepted");
+            assert!(o.len() == len && usize::from(o.len_u8()) == len);
+            assert!(o.as_slice().len() == len);
+            if j < len {
+                assert!(o.as_slice()[j] == v);
+            }
+            if via_header {
+                assert!(h.header_len() == IPV4_BASE + len);
+                assert!(usize::from(h.ihl()) * 4 == IPV4_BASE + len);
+                let b = h.to_bytes();
+                assert!(usize::from(b[0] & 0x0f) * 4 == IPV4_BASE + len, "C14: encoded IHL");
+                assert!(b.len() == IPV4_BASE + len);
+            }
+        }
+        Err(e) => {
+            assert!(!ok, "C14: representable options length rejected");
+            assert!(e.bad_len == len, "C14: error does not carry the offending value");
+            assert!(ipv4_same(&h, &before, jj), "C14: header changed by a rejected call");
+        }
+    }
+}
+
+/// `TcpOptions::try_from_slice`, `TcpHeader::set_options_raw`: data offset is a 4 bit count of 32
+/// bit words, 5 of them are the fixed header => at most 40 bytes; shorter areas are zero padded
+/// to the next multiple of 4 (documented)
+pub fn tcp_options_try_from_slice() {
+    let len: usize = any();
+    let via_header = any_bool();
+    let mut h = tcp_header();
+    let old_len = h.options.len();
+    let old_doff = h.data_offset();
+    let (z, j, v) = marked(len);
+    let max = (15 - 5) * 4;
+    let r = if via_header {
+        h.set_options_raw(z.slice()).map(|_| h.options.clone())
+    } else {
+        TcpOptions::try_from_slice(z.slice())
+    };
+    witness!(r.is_ok() && len == max && via_header, "accepted at the limit (header)");
+    witness!(r.is_ok() && len == max && !via_header, "accepted at the limit");
+    witness!(r.is_ok() && len == 37, "accepted unaligned (padded)");
+    witness!(r.is_err() && len == max + 1, "rejected just above the limit");
+    witness!(r.is_err() && len == 256 + 4, "rejected: low byte would fit");
+    witness!(r.is_err() && len == MAX_OBJ, "rejected largest object");
+    match r {
+        Ok(o) => {
+            assert!(len <= max, "C14: unrepresentable options length accepted");
+            let padded = (len + 3) / 4 * 4;
+            assert!(o.len() == padded && usize::from(o.len_u8()) == padded);
+            assert!(usize::from(o.data_offset()) * 4 == TCP_BASE + padded, "C14: data offset");
+            if j < len {
+                assert!(o.as_slice()[j] == v);
+            }
+            let k: usize = any();
+            if len <= k && k < padded {
+                assert!(o.as_slice()[k] == 0, "padding is zero");
+            }
+            if via_header {
+                assert!(h.header_len() == TCP_BASE + padded);
+                let b = h.to_bytes();
+                assert!(usize::from(b[12] >> 4) * 4 == TCP_BASE + padded, "C14: encoded data offset");
+                assert!(b.len() == TCP_BASE + padded);
+            }
+        }
+        Err(e) => {
+            assert!(len > max, "C14: representable options length rejected");
+            assert!(e == TcpOptionWriteError::NotEnoughSpace(len), "C14: error does not carry the offending value");
+            assert!(h.options.len() == old_len && h.data_offset() == old_doff, "C14: header changed by a rejected call");
+        }
+    }
+}
+
+// ================================================================= ARP address lengths
+
+/// RFC 826: hardware and protocol address length are 8 bit fields, one value for sender and target
+const ARP_ADDR_MAX: usize = (1 << 8) - 1;
+
+fn arp_hw_err_ok(e: &err::arp::ArpHwAddrError, s: usize, t: usize) -> bool {
+    use err::arp::ArpHwAddrError::*;
+    match e {
+        LenTooBig(l) => *l == s && s > ARP_ADDR_MAX,
+        LenNonMatching(a, b) => *a == s && *b == t && s != t,
+    }
+}
+fn arp_proto_err_ok(e: &err::arp::ArpProtoAddrError, s: usize, t: usize) -> bool {
+    use err::arp::ArpProtoAddrError::*;
+    match e {
+        LenTooBig(l) => *l == s && s > ARP_ADDR_MAX,
+        LenNonMatching(a, b) => *a == s && *b == t && s != t,
+    }
+}
+
+/// the packet carries exactly these address lengths (accessors and derived packet length)
+fn arp_lens(p: &ArpPacket, hw: usize, proto: usize) {
+    assert!(usize::from(p.hw_addr_size()) == hw, "C14: hardware address size");
+    assert!(usize::from(p.protocol_addr_size()) == proto, "C14: protocol address size");
+    assert!(p.sender_hw_addr().len() == hw && p.target_hw_addr().len() == hw);
+    assert!(p.sender_protocol_addr().len() == proto && p.target_protocol_addr().len() == proto);
+    assert!(p.packet_len() == 8 + 2 * hw + 2 * proto);
+}
+
+/// `ArpPacket::new`: four slices of independent symbolic lengths
+pub fn arp_new() {
+    let (sh, sp, th, tp): (usize, usize, usize, usize) = (any(), any(), any(), any());
+    let (a, b, c, d) = (Zeros::new(sh), Zeros::new(sp), Zeros::new(th), Zeros::new(tp));
+    let ok = sh == th && sp == tp && sh <= ARP_ADDR_MAX && sp <= ARP_ADDR_MAX;
+    let r = ArpPacket::new(
+        ArpHardwareId(any()),
+        EtherType(any()),
+        ArpOperation(any()),
+        a.slice(),
+        b.slice(),
+        c.slice(),
+        d.slice(),
+    );
+    witness!(r.is_ok() && sh == ARP_ADDR_MAX && sp == ARP_ADDR_MAX, "accepted at both limits");
+    witness!(r.is_ok() && sh == 0 && sp == 0, "accepted empty");
+    witness!(r.is_err() && sh == ARP_ADDR_MAX + 1 && th == sh && sp == tp && sp <= ARP_ADDR_MAX, "rejected hw just above the limit");
+    witness!(r.is_err() && sp == ARP_ADDR_MAX + 1 && tp == sp && sh == th && sh <= ARP_ADDR_MAX, "rejected proto just above the limit");
+    witness!(r.is_err() && sh == 256 + 6 && th == sh && sp == 4 && tp == 4, "rejected: low byte would fit");
+    witness!(r.is_err() && sh == 6 && th == 7, "rejected hw mismatch");
+    witness!(r.is_err() && sp == 4 && tp == 16 && sh == th, "rejected proto mismatch");
+    match r {
+        Ok(p) => {
+            assert!(ok, "C14: unrepresentable address lengths accepted");
+            arp_lens(&p, sh, sp);
+        }
+        Err(e) => {
+            assert!(!ok, "C14: representable address lengths rejected");
+            match e {
+                err::arp::ArpNewError::HwAddr(e) => assert!(arp_hw_err_ok(&e, sh, th), "C14: error does not describe the fault"),
+                err::arp::ArpNewError::ProtoAddr(e) => assert!(arp_proto_err_ok(&e, sp, tp), "C14: error does not describe the fault"),
+            }
+        }
+    }
+}
+
+fn arp_small() -> (ArpPacket, usize, usize) {
+    let hw = if any_bool() { 6 } else { 1 };
+    let proto = if any_bool() { 4 } else { 0 };
+    let x: [u8; 6] = any();
+    let y: [u8; 4] = any();
+    match ArpPacket::new(ArpHardwareId(any()), EtherType(any()), ArpOperation(any()), &x[..hw], &y[..proto], &x[..hw], &y[..proto]) {
+        Ok(p) => (p, hw, proto),
+        Err(_) => panic!("documented acceptance set of ArpPacket::new"),
+    }
+}
+
+/// `ArpPacket::set_hw_addrs` / `set_protocol_addrs`
+pub fn arp_set_addrs() {
+    let (s, t): (usize, usize) = (any(), any());
+    let hw_side = any_bool();
+    let (mut p, hw, proto) = arp_small();
+    let (a, b) = (Zeros::new(s), Zeros::new(t));
+    let ok = s == t && s <= ARP_ADDR_MAX;
+    let first = if hw > 0 { p.sender_hw_addr()[0] } else { 0 };
+    let (t0, t1, t2) = (p.hw_addr_type, p.proto_addr_type, p.operation);
+    witness!(ok && s == ARP_ADDR_MAX && hw_side, "hw accepted at the limit");
+    witness!(ok && s == ARP_ADDR_MAX && !hw_side, "proto accepted at the limit");
+    witness!(s == t && s == ARP_ADDR_MAX + 1 && hw_side, "hw rejected just above the limit");
+    witness!(s == t && s == ARP_ADDR_MAX + 1 && !hw_side, "proto rejected just above the limit");
+    witness!(s == t && s == 512, "low byte zero");
+    witness!(s == 6 && t == 8, "mismatch");
+    if hw_side {
+        match p.set_hw_addrs(a.slice(), b.slice()) {
+            Ok(()) => {
+                assert!(ok, "C14: unrepresentable address lengths accepted");
+                arp_lens(&p, s, proto);
+            }
+            Err(e) => {
+                assert!(!ok, "C14: representable address lengths rejected");
+                assert!(arp_hw_err_ok(&e, s, t), "C14: error does not describe the fault");
+                arp_lens(&p, hw, proto);
+                if hw > 0 {
+                    assert!(p.sender_hw_addr()[0] == first, "C14: packet changed by a rejected call");
+                }
+            }
+        }
+    } else {
+        match p.set_protocol_addrs(a.slice(), b.slice()) {
+            Ok(()) => {
+                assert!(ok, "C14: unrepresentable address lengths accepted");
+                arp_lens(&p, hw, s);
+            }
+            Err(e) => {
+                assert!(!ok, "C14: representable address lengths rejected");
+                assert!(arp_proto_err_ok(&e, s, t), "C14: error does not describe the fault");
+                arp_lens(&p, hw, proto);
+            }
+        }
+    }
+    assert!(p.hw_addr_type == t0 && p.proto_addr_type == t1 && p.operation == t2);
+}
+
+/// `ArpPacket::new` + `to_bytes` at the field maximum (concrete sizes: symbolic ones exhaust
+/// CBMC's memory in `to_bytes`): 255 is what the two 8 bit fields carry
+pub fn arp_new_encoded_max() {
+    let a = [0u8; ARP_ADDR_MAX];
+    let b = [0u8; ARP_ADDR_MAX];
+    let p = match ArpPacket::new(ArpHardwareId(any()), EtherType(any()), ArpOperation(any()), &a, &b, &a, &b) {
+        Ok(p) => p,
+        Err(_) => panic!("C14: representable address lengths rejected"),
+    };
+    let bytes = p.to_bytes();
+    assert!(usize::from(bytes[4]) == ARP_ADDR_MAX, "C14: encoded hardware address length");
+    assert!(usize::from(bytes[5]) == ARP_ADDR_MAX, "C14: encoded protocol address length");
+    assert!(bytes.len() == 8 + 4 * ARP_ADDR_MAX);
+    witness!(true, "reached");
+}
+
+// ================================================================= PacketBuilder
+
+fn be16(b: &[u8; 64], at: usize) -> usize {
+    usize::from(u16::from_be_bytes([b[at], b[at + 1]]))
+}
+
+/// a rejected builder call reports the payload length error of the IP header: the IP payload
+/// length (transport header + payload, `shift` more than the caller's value) against the
+/// maximum IP payload, or the caller's value against the caller's maximum - the same excess in
+/// consistent units (the documentation does not say which)
+fn builder_err(r: Result<(), err::packet::BuildWriteError>, len: usize, max: usize, shift: usize, vt: ValueType) {
+    match r {
+        Err(err::packet::BuildWriteError::PayloadLen(e)) => {
+            assert!(len > max, "C14: representable value rejected");
+            assert!(e.value_type == vt, "C14: wrong value type");
+            let caller_units = e.actual == len && e.max_allowed == max;
+            let ip_units = e.actual == len + shift && e.max_allowed == max + shift;
+            assert!(caller_units || ip_units, "C14: error does not carry (offending, allowed)");
+        }
+        Err(_) => panic!("C14: a length fault must be reported as PayloadLen"),
+        Ok(()) => panic!("unreachable"),
+    }
+}
+
+const ETH: usize = 14;
+
+/// Ethernet II / IPv4 / UDP: payload + 8 must fit the UDP length AND payload + 8 + 20 the IPv4
+/// total length; the tighter one is the true maximum
+pub fn builder_ipv4_udp() {
+    let len: usize = any();
+    let (sp, dp): (u16, u16) = (any(), any());
+    let b = PacketBuilder::ethernet2(any(), any()).ipv4(any(), any(), any()).udp(sp, dp);
+    let z = Zeros::new(len);
+    let mut w = Capture::new();
+    let max = U16_FIELD_MAX - IPV4_BASE - UDP_HDR;
+    ghost::reset();
+    let r = b.write(&mut w, z.slice());
+    witness!(r.is_ok() && len == max, "accepted at the limit");
+    witness!(r.is_err() && len == max + 1, "rejected just above the limit");
+    witness!(r.is_err() && len == U16_FIELD_MAX - UDP_HDR, "rejected: fits UDP, not IPv4");
+    witness!(r.is_err() && len == U16_FIELD_MAX + 1, "rejected 2^16");
+    witness!(r.is_err() && len == MAX_OBJ, "rejected largest object");
+    if r.is_ok() {
+        assert!(len <= max, "C14: value above the field maximum accepted");
+        assert!(w.total == ETH + IPV4_BASE + UDP_HDR + len);
+        assert!(w.buf[ETH] == 0x45);
+        assert!(be16(&w.buf, ETH + 2) == IPV4_BASE + UDP_HDR + len, "C14: encoded IPv4 total length");
+        assert!(be16(&w.buf, ETH + IPV4_BASE + 4) == UDP_HDR + len, "C14: encoded UDP length");
+        assert!(be16(&w.buf, ETH + IPV4_BASE) == usize::from(sp) && be16(&w.buf, ETH + IPV4_BASE + 2) == usize::from(dp));
+        #[cfg(kani)]
+        assert!(words16(UDP_HDR + len) >= 2, "C14: length word summed into the checksum");
+    } else {
+        builder_err(r, len, max, UDP_HDR, ValueType::Ipv4PayloadLength);
+    }
+}
+
+/// Ethernet II / IPv4 / TCP (no options): payload + 20 + 20 must fit the IPv4 total length
+pub fn builder_ipv4_tcp() {
+    let len: usize = any();
+    let b = PacketBuilder::ethernet2(any(), any()).ipv4(any(), any(), any()).tcp(any(), any(), any(), any());
+    let z = Zeros::new(len);
+    let mut w = Capture::new();
+    let max = U16_FIELD_MAX - IPV4_BASE - TCP_BASE;
+    ghost::reset();
+    let r = b.write(&mut w, z.slice());
+    witness!(r.is_ok() && len == max, "accepted at the limit");
+    witness!(r.is_err() && len == max + 1, "rejected just above the limit");
+    witness!(r.is_err() && len == U16_FIELD_MAX + 1, "rejected 2^16");
+    witness!(r.is_err() && len == MAX_OBJ, "rejected largest object");
+    if r.is_ok() {
+        assert!(len <= max, "C14: value above the field maximum accepted");
+        assert!(w.total == ETH + IPV4_BASE + TCP_BASE + len);
+        assert!(be16(&w.buf, ETH + 2) == IPV4_BASE + TCP_BASE + len, "C14: encoded IPv4 total length");
+        assert!(w.buf[ETH + IPV4_BASE + 12] >> 4 == 5);
+        #[cfg(kani)]
+        assert!(words16(TCP_BASE + len) >= 1, "C14: TCP length word summed into the checksum");
+    } else {
+        builder_err(r, len, max, TCP_BASE, ValueType::Ipv4PayloadLength);
+    }
+}
+
+
+/// Ethernet II / IPv4 / ICMPv4 echo request: payload + 8 + 20 must fit the IPv4 total length
+pub fn builder_ipv4_icmpv4() {
+    let len: usize = any();
+    let b = PacketBuilder::ethernet2(any(), any()).ipv4(any(), any(), any()).icmpv4_echo_request(any(), any());
+    let z = Zeros::new(len);
+    let mut w = Capture::new();
+    let icmp = 8; // RFC 792 echo: type, code, checksum, identifier, sequence number
+    let max = U16_FIELD_MAX - IPV4_BASE - icmp;
+    ghost::reset();
+    let r = b.write(&mut w, z.slice());
+    witness!(r.is_ok() && len == max, "accepted at the limit");
+    witness!(r.is_err() && len == max + 1, "rejected just above the limit");
+    witness!(r.is_err() && len == U16_FIELD_MAX + 1, "rejected 2^16");
+    witness!(r.is_err() && len == MAX_OBJ, "rejected largest object");
+    if r.is_ok() {
+        assert!(len <= max, "C14: value above the field maximum accepted");
+        assert!(w.total == ETH + IPV4_BASE + icmp + len);
+        assert!(be16(&w.buf, ETH + 2) == IPV4_BASE + icmp + len, "C14: encoded IPv4 total length");
+        assert!(w.buf[ETH + IPV4_BASE] == 8 && w.buf[ETH + 9] == 1);
+    } else {
+        builder_err(r, len, max, icmp, ValueType::Ipv4PayloadLength);
+    }
+}
+
+// ================================================================= TransportHeader dispatch
+
+/// `TransportHeader::update_checksum_ipv4 / ipv6` (what the builder calls after the IP length is
+/// set): every variant reaches the limit of its own protocol, a rejected call changes nothing
+pub fn transport_update_checksum() {
+    let which = any_le(2);
+    let v6 = any_bool();
+    let len: usize = any();
+    let ip4 = ipv4_header();
+    let ip6 = ipv6_header();
+    let mut t = match which {
+        0 => TransportHeader::Udp(UdpHeader { source_port: any(), destination_port: any(), length: any(), checksum: any() }),
+        1 => TransportHeader::Tcp(tcp_header()),
+        _ => TransportHeader::Icmpv6(Icmpv6Header { icmp_type: icmpv6_type(), checksum: any() }),
+    };
+    let before = t.clone();
+    let hdr = t.header_len();
+    let z = Zeros::new(len);
+    ghost::reset();
+    let field = if v6 { U32_FIELD_MAX } else { U16_FIELD_MAX };
+    let max = field - hdr;
+    let vt = match (which, v6) {
+        (0, false) => ValueType::UdpPayloadLengthIpv4,
+        (0, true) => ValueType::UdpPayloadLengthIpv6,
+        (1, false) => ValueType::TcpPayloadLengthIpv4,
+        (1, true) => ValueType::TcpPayloadLengthIpv6,
+        _ => ValueType::Icmpv6PayloadLength,
+    };
+    let r: Result<(), Option<ValueTooBigError<usize>>> = if v6 {
+        t.update_checksum_ipv6(&ip6, z.slice()).map_err(Some)
+    } else {
+        match t.update_checksum_ipv4(&ip4, z.slice()) {
+            Ok(()) => Ok(()),
+            Err(err::packet::TransportChecksumError::PayloadLen(e)) => Err(Some(e)),
+            Err(err::packet::TransportChecksumError::Icmpv6InIpv4) => Err(None),
+        }
+    };
+    witness!(r.is_ok() && len == max && which == 0 && !v6, "udp/v4 accepted at the limit");
+    witness!(r.is_err() && len == max + 1 && which == 0 && !v6, "udp/v4 rejected just above the limit");
+    witness!(r.is_ok() && len == max && which == 1 && !v6, "tcp/v4 accepted at the limit");
+    witness!(r.is_err() && len == max + 1 && which == 1 && !v6, "tcp/v4 rejected just above the limit");
+    witness!(r.is_ok() && len == max && which == 0 && v6, "udp/v6 accepted at the limit");
+    witness!(r.is_err() && len == max + 1 && which == 0 && v6, "udp/v6 rejected just above the limit");
+    witness!(r.is_ok() && len == max && which == 1 && v6, "tcp/v6 accepted at the limit");
+    witness!(r.is_err() && len == max + 1 && which == 1 && v6, "tcp/v6 rejected just above the limit");
+    witness!(r.is_ok() && len == max && which == 2 && v6, "icmpv6/v6 accepted at the limit");
+    witness!(r.is_err() && len == max + 1 && which == 2 && v6, "icmpv6/v6 rejected just above the limit");
+    witness!(r.is_err() && which == 2 && !v6, "icmpv6 in ipv4");
+    match r {
+        Ok(()) => {
+            assert!(len <= max, "C14: value above the field maximum accepted");
+            assert!(!(which == 2 && !v6), "ICMPv6 in IPv4 has no defined checksum");
+            #[cfg(kani)]
+            assert!(ghost::count_slice(len) >= 1, "C14: whole payload summed");
+        }
+        Err(None) => {
+            assert!(which == 2 && !v6);
+            assert!(t == before, "C14: header changed by a rejected call");
+        }
+        Err(Some(e)) => {
+            assert!(len > max, "C14: representable value rejected");
+            check_too_big(&e, len, max, vt);
+            assert!(t == before, "C14: header changed by a rejected call");
+        }
+    }
+}
+
+crate::harnesses! {
+    c14_ipv4_new = ipv4_new; unwind 8,
+    c14_ipv4_set_payload_len = ipv4_set_payload_len; unwind 8,
+    c14_ipv6_set_payload_length = ipv6_set_payload_length; unwind 20,
+    c14_ip_headers_v4_set_payload_len = ip_headers_v4_set_payload_len; unwind 12,
+    c14_ip_headers_v6_set_payload_len = ip_headers_v6_set_payload_len; unwind 20,
+    c14_ip_headers_v6_overflow_value_type = ip_headers_v6_overflow_value_type; unwind 4,
+    c14_udp_without_checksum = udp_without_checksum; unwind 4,
+    c14_macsec_short_len = macsec_short_len; unwind 4,
+    c14_macsec_set_payload_len = macsec_set_payload_len; unwind 20,
+    c14_auth_new = auth_new; unwind 4,
+    c14_auth_set_raw_icv = auth_set_raw_icv; unwind 4,
+    c14_raw_ext_new = raw_ext_new; unwind 4,
+    c14_raw_ext_set_payload = raw_ext_set_payload; unwind 4,
+    c14_ipv4_options_try_from = ipv4_options_try_from; unwind 8,
+    c14_tcp_options_try_from_slice = tcp_options_try_from_slice; unwind 42,
+    c14_arp_new = arp_new; unwind 4,
+    c14_arp_set_addrs = arp_set_addrs; unwind 4,
+    c14_arp_new_encoded_max = arp_new_encoded_max; unwind 10,
+    #[kani::stub(etherparse::checksum::u64_16bit_word::add_slice, g_add_slice)]
+    #[kani::stub(etherparse::checksum::u64_16bit_word::add_2bytes, g_add2)]
+    #[kani::stub(etherparse::checksum::u64_16bit_word::add_4bytes, g_add4)]
+    #[kani::stub(etherparse::checksum::u64_16bit_word::add_8bytes, g_add8)]
+    c14_udp_ipv4_slice = udp_ipv4_slice; unwind 21,
+    #[kani::stub(etherparse::checksum::u64_16bit_word::add_slice, g_add_slice)]
+    #[kani::stub(etherparse::checksum::u64_16bit_word::add_2bytes, g_add2)]
+    #[kani::stub(etherparse::checksum::u64_16bit_word::add_4bytes, g_add4)]
+    #[kani::stub(etherparse::checksum::u64_16bit_word::add_8bytes, g_add8)]
+    c14_udp_ipv6_slice = udp_ipv6_slice; unwind 21,
+    #[kani::stub(etherparse::checksum::u64_16bit_word::add_slice, g_add_slice)]
+    #[kani::stub(etherparse::checksum::u64_16bit_word::add_2bytes, g_add2)]
+    #[kani::stub(etherparse::checksum::u64_16bit_word::add_4bytes, g_add4)]
+    #[kani::stub(etherparse::checksum::u64_16bit_word::add_8bytes, g_add8)]
+    c14_tcp_header_ipv4 = tcp_header_ipv4; unwind 21,
+    #[kani::stub(etherparse::checksum::u64_16bit_word::add_slice, g_add_slice)]
+    #[kani::stub(etherparse::checksum::u64_16bit_word::add_2bytes, g_add2)]
+    #[kani::stub(etherparse::checksum::u64_16bit_word::add_4bytes, g_add4)]
+    #[kani::stub(etherparse::checksum::u64_16bit_word::add_8bytes, g_add8)]
+    c14_tcp_header_ipv6 = tcp_header_ipv6; unwind 21,
+    #[kani::stub(etherparse::checksum::u64_16bit_word::add_slice, g_add_slice)]
+    #[kani::stub(etherparse::checksum::u64_16bit_word::add_2bytes, g_add2)]
+    #[kani::stub(etherparse::checksum::u64_16bit_word::add_4bytes, g_add4)]
+    #[kani::stub(etherparse::checksum::u64_16bit_word::add_8bytes, g_add8)]
+    c14_tcp_slice_calc = tcp_slice_calc; unwind 21,
+    #[kani::stub(etherparse::checksum::u64_16bit_word::add_slice, g_add_slice)]
+    #[kani::stub(etherparse::checksum::u64_16bit_word::add_2bytes, g_add2)]
+    #[kani::stub(etherparse::checksum::u64_16bit_word::add_4bytes, g_add4)]
+    #[kani::stub(etherparse::checksum::u64_16bit_word::add_8bytes, g_add8)]
+    c14_tcp_header_slice_calc = tcp_header_slice_calc; unwind 21,
+    #[kani::stub(etherparse::checksum::u64_16bit_word::add_slice, g_add_slice)]
+    #[kani::stub(etherparse::checksum::u64_16bit_word::add_2bytes, g_add2)]
+    #[kani::stub(etherparse::checksum::u64_16bit_word::add_4bytes, g_add4)]
+    #[kani::stub(etherparse::checksum::u64_16bit_word::add_8bytes, g_add8)]
+    c14_icmpv6_calc = icmpv6_calc; unwind 21,
+    #[kani::stub(etherparse::checksum::u64_16bit_word::add_slice, g_add_slice)]
+    #[kani::stub(etherparse::checksum::u64_16bit_word::add_2bytes, g_add2)]
+    #[kani::stub(etherparse::checksum::u64_16bit_word::add_4bytes, g_add4)]
+    #[kani::stub(etherparse::checksum::u64_16bit_word::add_8bytes, g_add8)]
+    c14_transport_update_checksum = transport_update_checksum; unwind 42,
+    #[kani::stub(etherparse::checksum::u64_16bit_word::add_slice, g_add_slice)]
+    #[kani::stub(etherparse::checksum::u64_16bit_word::add_2bytes, g_add2)]
+    #[kani::stub(etherparse::checksum::u64_16bit_word::add_4bytes, g_add4)]
+    #[kani::stub(etherparse::checksum::u64_16bit_word::add_8bytes, g_add8)]
+    c14_builder_ipv4_udp = builder_ipv4_udp; unwind 41,
+    #[kani::stub(etherparse::checksum::u64_16bit_word::add_slice, g_add_slice)]
+    #[kani::stub(etherparse::checksum::u64_16bit_word::add_2bytes, g_add2)]
+    #[kani::stub(etherparse::checksum::u64_16bit_word::add_4bytes, g_add4)]
+    #[kani::stub(etherparse::checksum::u64_16bit_word::add_8bytes, g_add8)]
+    c14_builder_ipv4_tcp = builder_ipv4_tcp; unwind 41,
+    #[kani::stub(etherparse::checksum::u64_16bit_word::add_slice, g_add_slice)]
+    #[kani::stub(etherparse::checksum::u64_16bit_word::add_2bytes, g_add2)]
+    #[kani::stub(etherparse::checksum::u64_16bit_word::add_4bytes, g_add4)]
+    #[kani::stub(etherparse::checksum::u64_16bit_word::add_8bytes, g_add8)]
+    c14_builder_ipv4_icmpv4 = builder_ipv4_icmpv4; unwind 41,
+}
